@@ -177,6 +177,163 @@ def oracle(c, obs):
 
 
 # ---------------------------------------------------------------------------------------------
+# direct calls of the math functions: structured operands, compared with the model (CLCorr.mcall_ok) and checked against exact rationals
+# ---------------------------------------------------------------------------------------------
+def gen_math(r, n, witness=False):
+    def sqrtp():
+        k = r.below(6)
+        e = r.range(30, 55)
+        if k == 0:
+            return 10 ** e
+        if k == 1:
+            return r.range(10 ** 12, 10 ** 37) * 10 ** 18                  # an 18-decimal value (like every tick sqrt price)
+        if k == 2:
+            return r.range(10 ** 12, 10 ** 37) * 10 ** 18 + r.choice([-1, 1, 2])
+        if k == 3:
+            return 10 ** 36 + r.range(-10 ** 33, 10 ** 33)                # near price 1
+        return r.range(10 ** (e - 1), 10 ** e)
+
+    def liq():
+        return r.choice([0, 1, 4 * 10 ** 17, 10 ** 18, r.range(1, 10 ** 20), r.range(10 ** 20, 10 ** 45)])
+
+    def amt():
+        return r.choice([0, 1, 2, r.range(1, 10 ** 6), r.range(10 ** 6, 10 ** 30)])
+    calls = []
+    if witness:   # the half-ulp witness of known finding C03-F1
+        calls.append({"f": "amount1", "x": str(4 * 10 ** 17), "a": str(10 ** 36), "b": str(10 ** 36 + 25 * 10 ** 35 + 1), "ru": True})
+    while len(calls) < n:
+        f = r.choice(["amount0", "amount1", "amount0", "amount1", "next0in", "next0out", "next1in", "next1out", "liq0", "liq1", "liqfrom", "tick2sqrt", "sqrt2tick"])
+        a, b = sqrtp(), sqrtp()
+        if r.chance(1, 6):
+            b = a + r.choice([0, 1, -1, 10 ** 18])
+        if f in ("amount0", "amount1"):
+            calls.append({"f": f, "x": str(liq()), "a": str(a), "b": str(b), "ru": r.chance(1, 2)})
+        elif f == "next0in":
+            calls.append({"f": f, "a": str(a), "x": str(liq() * 10 ** 18), "y": str(amt() * r.choice([10 ** 36, 10 ** 35, 1]))})
+        elif f == "next0out":
+            calls.append({"f": f, "a": str(a), "x": str(liq() * 10 ** 18), "y": str(amt() * r.choice([10 ** 18, 10 ** 17, 1]))})
+        elif f in ("next1in", "next1out"):
+            calls.append({"f": f, "a": str(a), "x": str(liq()), "y": str(amt() * r.choice([10 ** 36, 10 ** 35, 1]))})
+        elif f in ("liq0", "liq1"):
+            calls.append({"f": f, "x": str(amt()), "a": str(a), "b": str(b)})
+        elif f == "liqfrom":
+            calls.append({"f": f, "c": str(sqrtp()), "a": str(a), "b": str(b), "x": str(amt()), "y": str(amt())})
+        elif f == "tick2sqrt":
+            calls.append({"f": f, "t": r.choice([0, 1, -1, r.range(-108000002, 342000001), 9000000 * r.range(-12, 38) + r.range(-2, 2)])})
+        else:
+            calls.append({"f": f, "a": str(a)})
+    return calls
+
+
+def coq_mcall(m):
+    z = lambda k: _cl.hz(int(m.get(k, "0") or 0))
+    b = "true" if m.get("ru") else "false"
+    f = m["f"]
+    if f == "amount0":
+        return "MAmount0 %s %s %s %s" % (z("x"), z("a"), z("b"), b)
+    if f == "amount1":
+        return "MAmount1 %s %s %s %s" % (z("x"), z("a"), z("b"), b)
+    if f in ("next0in", "next0out", "next1in", "next1out"):
+        return {"next0in": "MNext0In", "next0out": "MNext0Out", "next1in": "MNext1In", "next1out": "MNext1Out"}[f] + " %s %s %s" % (z("a"), z("x"), z("y"))
+    if f in ("liq0", "liq1"):
+        return {"liq0": "MLiq0", "liq1": "MLiq1"}[f] + " %s %s %s" % (z("x"), z("a"), z("b"))
+    if f == "liqfrom":
+        return "MLiqFrom %s %s %s %s %s" % (z("c"), z("a"), z("b"), z("x"), z("y"))
+    if f == "tick2sqrt":
+        return "MTick2Sqrt %s" % _cl.hz(m["t"])
+    return "MSqrt2Tick %s" % z("a")
+
+
+def math_oracle(m, res):
+    """rounding direction of the amount / next-price functions against exact rationals (only meaningful operands)"""
+    if res[0] != "1":
+        return []
+    v = int(res[1])
+    f = m["f"]
+    out = []
+
+    def bad(kind, what):
+        out.append({"what": "%s(%s) = %d: %s" % (f, {k: m[k] for k in m if k != "f"}, v, what), "rec": {"kind": kind, "fn": f}, "case": {"math": [m]}})
+    if f in ("amount0", "amount1"):
+        L, a, b = int(m["x"]), int(m["a"]), int(m["b"])
+        if L < 0 or a <= 0 or b <= 0:
+            return []
+        d = abs(a - b)
+        exact = Fraction(L * d * 10 ** 54, a * b) if f == "amount0" else Fraction(L * d, 10 ** 18)      # x 10^36
+        if m.get("ru"):
+            if v % 10 ** 36 != 0:
+                bad("amount_round_up_not_whole", "a rounded-up amount must be a whole number of tokens")
+            if v < exact:
+                if f == "amount1" and v > exact - Fraction(1, 2):
+                    bad("amount1_up_below_exact", "below the exact amount %s by less than half a unit of the 36th decimal (MulDec rounds half-even before Ceil)" % exact)
+                else:
+                    bad("amount_up_below_exact", "below the exact amount %s" % exact)
+            elif v >= exact + 10 ** 36 + 2 * (10 ** 36 * 10 ** 36 // min(a, b) + 1 if f == "amount0" else 1):
+                bad("amount_up_too_high", "more than a token above the exact amount %s" % exact)
+        else:
+            if v > exact:
+                bad("amount_down_above_exact", "above the exact amount %s" % exact)
+    elif f in ("next0in", "next1in", "next0out", "next1out"):
+        c, x, y = int(m["a"]), int(m["x"]), int(m["y"])
+        if c <= 0 or x <= 0 or y < 0:
+            return []
+        if f == "next0in":        # liq36, amt36 -> exact L c / (L + a c), rounded up (toward c)
+            exact = Fraction(x * c * 10 ** 36, x * 10 ** 36 + y * c)
+            if v < exact:
+                bad("next_price_direction", "below the exact next price %s (must be rounded toward the current price)" % exact)
+        elif f == "next1in":      # liq18, amt36 -> c + a / L, rounded down (toward c)
+            exact = c + Fraction(y * 10 ** 18, x)
+            if v > exact or v < c:
+                bad("next_price_direction", "not in [current, exact next price %s]" % exact)
+        elif f == "next1out":     # c - a / L rounded so that the price moves at least as far
+            exact = c - Fraction(y * 10 ** 18, x)
+            if v > exact:
+                bad("next_price_direction", "above the exact next price %s (must be rounded away from the current price)" % exact)
+        else:                     # next0out: liq36, amt18 -> L c / (L - a c) rounded up
+            den = x * 10 ** 18 - y * c
+            if den > 0:
+                exact = Fraction(x * c * 10 ** 18, den)
+                if v < exact:
+                    bad("next_price_direction", "below the exact next price %s (must be rounded away from the current price)" % exact)
+    return out
+
+
+def run_math(r, n_cases, per_case, model_ok, out, K):
+    mcases = [{"math": gen_math(r.fork("m%d" % i), per_case, witness=(i == 0))} for i in range(n_cases)]
+    obs = _cl.run_cldrv(mcases)
+    items, flat = [], []
+    for c, o in zip(mcases, obs):
+        res = o.get("math") or []
+        if len(res) != len(c["math"]):
+            out.oracle_violations.append({"what": "driver: math case returned %d results for %d calls" % (len(res), len(c["math"])), "rec": {"kind": "driver_fatal"}, "case": c})
+            continue
+        for m, rs in zip(c["math"], res):
+            out.evaluations += 1
+            out.oracle_violations.extend(math_oracle(m, rs))
+            flat.append((m, rs))
+            if rs[0] == "1":
+                out.nontrivial.add(json.dumps(m, sort_keys=True))
+    if model_ok and flat:
+        per = max(1, -(-len(flat) // (2 * common.NPROC)))
+        for fi in range(0, len(flat), per):
+            chunk = flat[fi:fi + per]
+            body = ";\n  ".join("(%s, %s)" % (coq_mcall(m), _cl.hzlist([int(rs[0]), int(rs[1])])) for m, rs in chunk)
+            v = ("From Coq Require Import ZArith List Bool. Import ListNotations.\n"
+                 "From Osmo Require Import Base.Obs CL.CLCorr.\nOpen Scope Z_scope.\n"
+                 "Definition calls : list (mcall * list Z) := [\n  %s ].\n"
+                 "Definition M := Eval vm_compute in mismatches mcall_ok calls.\nPrint M.\n" % body)
+            items.append(("C03_math_%d" % (fi // per), v, chunk))
+        res = common.coq_eval_many([(n, v) for n, v, _ in items])
+        for (name, _, chunk), (rc, o) in zip(items, res):
+            mm = common.parse_nat_list(o)
+            if rc != 0 or mm is None:
+                out.mismatches.append({"what": "model evaluation of math calls failed: " + o[-500:], "case": None})
+                continue
+            for i in mm:
+                out.mismatches.append({"what": "CL math model differs from the implementation on %s -> %s" % (chunk[i][0], chunk[i][1]), "case": {"math": [chunk[i][0]]}})
+    return len(flat)
+
+
 def est_pre(st):
     if st["rop"]["k"] in ("swap_in", "swap_out"):
         e = st["est"]
@@ -263,6 +420,9 @@ def correspond(tier, seed, model_ok):
     cases = [_cl.gen_case(r.fork(i), nops, K, weights=WEIGHTS, est=True) for i in range(n)]
     corpus = common.load_corpus(PROP)
     pairs = run_cases(corpus + cases, model_ok, out, "q", K, selft=True)
+    nmath = run_math(r.fork("math"), 8 if tier == "quick" else 80, 120, model_ok, out, K)
+    out.notes.append("%d direct calls of CalcAmount0/1Delta, the four GetNextSqrtPrice..., Liquidity0/1, GetLiquidityFromAmounts, TickToSqrtPrice, "
+                     "CalculateSqrtPriceToTick on structured operands compared with the model and checked against exact rationals" % nmath)
     out.rule = ("case = a pool state built by an LP history (overlapping / disjoint / adjacent / one-spacing / full ranges, gaps, balanced boundary ticks, all "
                 "authorised spacings and spread factors incl. 0, prices 1e-11..1e30) interleaved with swaps in both directions, exact-in and exact-out, amounts from "
                 "1 unit to beyond the pool, and swap-to-the-tick (+-1, +-2 units); around every swap: estimate before, estimate and execution of the return swap "
